@@ -480,8 +480,8 @@ func genC06(e *emitter, tier string, seed uint64) {
 				}
 				lock = append(lock, smallInt(n)...)
 				lock = append(lock, 0xae)
-				// slot kinds: signature by key j (0..n-1), wrong key, empty, high-S by key slot
-				kinds := n + 3
+				// slot kinds: signature by key j (0..n-1), wrong key, empty, high-S by key slot, junk that is not a signature
+				kinds := n + 4
 				total := 1
 				for i := 0; i < m; i++ {
 					total *= kinds
@@ -507,6 +507,8 @@ func genC06(e *emitter, tier string, seed uint64) {
 							sig = signFor(tx, idx, lock, sats, ht, keys[4], false)
 						case kd == n+1:
 							sig = []byte{}
+						case kd == n+3:
+							sig = [][]byte{append(r.bytes(8), 0x41), {0x30, 0x06, 0x02, 0x01, 0x00, 0x02, 0x01, 0x00, 0x41}, {0x41}}[r.n(3)]
 						default:
 							sig = signFor(tx, idx, lock, sats, ht, keys[slot%maxInt(n, 1)], true)
 						}
